@@ -1,2 +1,6 @@
 import NasVerif.Prelude.Basic
 import NasVerif.Codec.Defs
+import NasVerif.Codec.Dispatch
+import NasVerif.Codec.Theorems
+import NasVerif.Gen.Tables
+import NasVerif.Gen.Unrecognised
